@@ -1,10 +1,14 @@
 #!/bin/bash
-# Interpreter / memcheck legs of C06 (thorough tier). usage: interp_legs.sh <seed> <out.json> [scale]
+# Interpreter / memcheck legs of C06. usage: interp_legs.sh <seed> <out.json> [scale] [quick|thorough]
+# quick: only valgrind on the socket-free workload (a few seconds); thorough: everything below.
 #   miri     : N processes of `cargo +nightly miri run --bin vmiri` (socket-free workload, see src/bin/vmiri.rs)
 #   valgrind : memcheck on the native vmiri (many more iterations) and on one real C06 shard (sockets, benches)
 # Writes a JSON summary; never decides anything itself (vcheck turns reports into VIOLATION lines).
 set -u
-SEED=${1:-1}; OUT=${2:-/verif/target/interp-legs.json}; SCALE=${3:-1}
+SEED=${1:-1}; OUT=${2:-/verif/target/interp-legs.json}; SCALE=${3:-1}; MODE=${4:-thorough}
+# MODE selftest: like thorough at the smallest scale, but the workload commits a deliberate out-of-bounds read,
+# which both tools must report (checks the tool chain and this script's log parsing)
+EXTRA=""; if [ "$MODE" = selftest ]; then EXTRA="selftest-ub"; SCALE=0.01; fi
 HERE="$(cd "$(dirname "${BASH_SOURCE[0]}")/.." && pwd)"
 export RUSTDDS_VERIF_DIR="$HERE" CARGO_NET_OFFLINE=true
 TD="${CARGO_TARGET_DIR:-$HERE/target}"
@@ -13,10 +17,11 @@ NPROC=${VERIF_THREADS:-$(nproc)}
 PER=$(python3 -c "print(max(2,int(12*$SCALE)))")
 # ---- miri
 MIRI_OK=1
-( cd "$HERE/harness" && CARGO_TARGET_DIR="$TD-miri" MIRIFLAGS="-Zmiri-disable-isolation" cargo +nightly miri run --offline --bin vmiri -- $SEED 0 0 ) > "$LOGS/miri-build.log" 2>&1 || MIRI_OK=0
-if [ $MIRI_OK = 1 ]; then
+[ "$MODE" = quick ] && MIRI_OK=skip
+[ "$MODE" = quick ] || ( cd "$HERE/harness" && CARGO_TARGET_DIR="$TD-miri" MIRIFLAGS="-Zmiri-disable-isolation" cargo +nightly miri run --offline --bin vmiri -- $SEED 0 0 ) > "$LOGS/miri-build.log" 2>&1 || MIRI_OK=0
+if [ "$MIRI_OK" = 1 ]; then
   for k in $(seq 0 $((NPROC-1))); do
-    ( cd "$HERE/harness" && CARGO_TARGET_DIR="$TD-miri" MIRIFLAGS="-Zmiri-disable-isolation" timeout 3000 cargo +nightly miri run --offline --bin vmiri -- $SEED $((k*PER)) $PER > "$LOGS/miri-$k.log" 2>&1; echo "EXIT=$?" >> "$LOGS/miri-$k.log" ) &
+    ( cd "$HERE/harness" && CARGO_TARGET_DIR="$TD-miri" MIRIFLAGS="-Zmiri-disable-isolation" timeout 3000 cargo +nightly miri run --offline --bin vmiri -- $SEED $((k*PER)) $PER $EXTRA > "$LOGS/miri-$k.log" 2>&1; echo "EXIT=$?" >> "$LOGS/miri-$k.log" ) &
   done
   wait
 fi
@@ -24,17 +29,18 @@ fi
 VG_ITERS=$(python3 -c "print(int(1500*$SCALE))")
 ( cd "$HERE/harness" && CARGO_TARGET_DIR="$TD" cargo build --offline --release --bin vmiri --bin vcheck ) > "$LOGS/native-build.log" 2>&1
 for k in 0 1 2 3; do
-  ( valgrind --tool=memcheck --error-exitcode=9 --errors-for-leak-kinds=none --leak-check=no --num-callers=20 "$TD/release/vmiri" $SEED $((100000+k*VG_ITERS)) $VG_ITERS > "$LOGS/vg-vmiri-$k.log" 2>&1; echo "EXIT=$?" >> "$LOGS/vg-vmiri-$k.log" ) &
+  ( valgrind --tool=memcheck --error-exitcode=9 --errors-for-leak-kinds=none --leak-check=no --num-callers=20 "$TD/release/vmiri" $SEED $((100000+k*VG_ITERS)) $VG_ITERS $EXTRA > "$LOGS/vg-vmiri-$k.log" 2>&1; echo "EXIT=$?" >> "$LOGS/vg-vmiri-$k.log" ) &
 done
 SH_CASES=$(python3 -c "print(max(10,int(60*$SCALE)))")
-for k in 0 1 2 3; do
+[ "$MODE" = quick ] || for k in 0 1 2 3; do
   ( VERIF_SEED=$SEED VERIF_DOMAIN=$((200+k)) valgrind --tool=memcheck --error-exitcode=9 --errors-for-leak-kinds=none --leak-check=no --num-callers=20 "$TD/release/vcheck" C06 --tier quick --shard-range $((500000+k*SH_CASES)) $((500000+(k+1)*SH_CASES)) --shard-out "$LOGS/vg-shard-$k.json" > "$LOGS/vg-shard-$k.log" 2>&1; echo "EXIT=$?" >> "$LOGS/vg-shard-$k.log" ) &
 done
 wait
 python3 - "$LOGS" "$OUT" "$MIRI_OK" <<'P'
 import sys,os,re,json,glob
 logs,out,miri_ok=sys.argv[1],sys.argv[2],sys.argv[3]=="1"
-res={"miri":{"built":miri_ok,"processes":0,"processes_clean":0,"counters":{},"reports":[]},
+miri_skipped=sys.argv[3]=="skip"
+res={"mode":"quick" if miri_skipped else "thorough","miri":{"built":miri_ok,"skipped":miri_skipped,"processes":0,"processes_clean":0,"counters":{},"reports":[]},
      "valgrind":{"processes":0,"processes_clean":0,"counters":{},"reports":[],"shard_cases":0,"shard_violations":[]}}
 def counters(line,dst):
     for kv in line.split()[1:]:
@@ -50,7 +56,8 @@ for f in sorted(glob.glob(logs+'/miri-[0-9]*.log')):
         res["miri"]["processes_clean"]+=1; counters(m.group(0),res["miri"]["counters"])
     else:
         # first in-repo frame if any
-        fr=re.search(r'(/repo/src/[^\s:]+:\d+)',t)
+        tail=t[t.find('error: '):] if 'error: ' in t else t
+        fr=re.search(r'(/repo/src/[^\s:]+:\d+)',tail) or re.search(r'--> ([^\s]+:\d+)',tail)
         res["miri"]["reports"].append({"log":f,"error":(errs[0] if errs else ("no summary line, exit "+(ex.group(1) if ex else "?")))[:300],"at":fr.group(1) if fr else None,"is_ub":any('Undefined Behavior' in e for e in errs)})
 for f in sorted(glob.glob(logs+'/vg-*.log')):
     t=open(f,errors='replace').read(); res["valgrind"]["processes"]+=1
@@ -60,7 +67,7 @@ for f in sorted(glob.glob(logs+'/vg-*.log')):
     if ex and ex.group(1)=='0' and not verrs:
         res["valgrind"]["processes_clean"]+=1
     else:
-        fr=re.search(r'\((?:[^()]*/)?(src/[^\s:()]+\.rs:\d+)\)',t)
+        fr=re.search(r'\(([^()\s]*repo/src/[^\s:()]+\.rs:\d+)\)',t) or re.search(r'\(((?:[^()\s]*/)?[^\s:()/]+\.rs:\d+)\)',t)
         res["valgrind"]["reports"].append({"log":f,"error":(verrs[0] if verrs else "exit "+(ex.group(1) if ex else "?"))[:300],"at":fr.group(1) if fr else None})
 for f in sorted(glob.glob(logs+'/vg-shard-*.json')):
     try:
@@ -74,5 +81,5 @@ for f in sorted(glob.glob(logs+'/vg-shard-*.json')):
     except Exception as e:
         res["valgrind"]["reports"].append({"log":f,"error":"shard report unreadable: "+str(e)[:100],"at":None})
 json.dump(res,open(out,'w'),indent=1)
-print(json.dumps({k:{kk:vv for kk,vv in v.items() if kk!='counters'} for k,v in res.items()})[:1500])
+print(json.dumps({k:({kk:vv for kk,vv in v.items() if kk!='counters'} if isinstance(v,dict) else v) for k,v in res.items()})[:1500])
 P
